@@ -151,6 +151,10 @@ impl Check for C11 {
         for _ in 0..nsteps {
             let file = files[t.below(2)];
             match t.weighted(&[4, 5, 1, 1]) {
+                0 if !rewritten.is_empty() && t.chance(3) => {
+                    // a long-running process: more than a thousand other files are rewritten before the next look-up
+                    steps.push(json!({"op": "flood", "n": 1100, "code": "function g(a, b) { return a + b }\nmodule.exports = { g }\n", "config": base_cfg.clone()}));
+                }
                 0 => {
                     let kind = t.weighted(&[5, 2, 2, 1]); // modified, not modified, chained, syntax error
                     let p = gen_program(&mut t, kind != 1);
@@ -186,6 +190,12 @@ impl Check for C11 {
                     }
                     if kind == 3 {
                         code = "function broken( {\n".into();
+                    }
+                    if kind == 0 && t.chance(4) {
+                        // a bundle of more than 512 KiB (the padding is a comment behind the program)
+                        code.push_str("/* ");
+                        code.push_str(&"padding of a big bundle ".repeat(23_000));
+                        code.push_str("*/\n");
                     }
                     if kind == 1 && t.chance(100) {
                         // a file that is not modified and ends with a reference of its own (missing external map / inline map)
@@ -266,6 +276,16 @@ impl Check for C11 {
                     if s["kind"] == json!(2) {
                         nontrivial = true;
                     }
+                }
+                "flood" => {
+                    let cfg = info_from_json(&s["config"]);
+                    let code = s["code"].as_str().unwrap_or("").to_string();
+                    let out = rw::rewrite(&rw::make_config(&cfg.json), &code, "/virt/flood/f.js", &MemReader::default());
+                    match &out {
+                        rw::Outcome::Ok(v) => s["native"] = json!({"ok": v}),
+                        _ => return Outcome::skip("flood program not rewritten"),
+                    }
+                    classes.push("flood".to_string());
                 }
                 "probe" => {
                     let file = s["file"].as_str().unwrap_or("");
